@@ -35,6 +35,16 @@ CHECKS = {
    note="Trusted: overlay instrumentation R1-R5; reference models in verif/ulib; kinds not in this mix (relaxed mailboxes, CRDT, 2PC, nested archetype, raft log/channel resources) have their abort/commit atomicity exercised by C06/C11/C13/C16. Known finding recorded: committed TCP-mailbox batches can be reordered across a sender reconnect.",
    technique="deterministic simulation: seeded programs, fault positions and schedules over overlay-instrumented real resources; per-read reference-model oracle; shrunk, fresh-process-verified replay files",
    ref="6 (C01)"),
+ "C06": dict(
+   text="Seeded search over 1-4 sender and 1-3 receiver archetypes on separate simulated nodes using the real TCP mailboxes or relaxed mailboxes (and NewMailboxesLength) over a simulated TCP-like network under a simulator-owned scheduler and clock: pre-emption everywhere, stalls, latency, bounded socket buffers, late listeners, tiny receive buffers, read/write/dial time-outs 2 ms-3 s, sections failing after sends or after receives; messages are unique per attempt. History oracles per (sender, receiver): obtained sequence = committed-sent sequence (no loss, duplication, reordering, invention), no message of a failed attempt, same-order redelivery after an aborted receive, TCP batch contiguity, reported length <= pending, bounded completion. Calm configurations (time-outs far above latency and stalls) are judged strictly; in harsh ones two recorded known findings (reorder and duplicate after a time-out-induced reconnect) are separated from every other violation by the per-sender connection count.",
+   note="Trusted: overlay instrumentation R1-R6; simulated network is TCP-like (per-connection FIFO byte streams); no connection reset/isolation injected in this configuration; receivers keep mailboxes open until senders finish.",
+   technique="deterministic simulation: seeded schedules, time-outs, latency and buffer pressure over overlay-instrumented real mailboxes; history oracles (FIFO/exactly-once/atomic batches); shrunk replay files",
+   ref="6 (C06)"),
+ "C07": dict(
+   text="Seeded search over 2-5 archetype contexts sharing 1-4 variables through the real LocalSharedManager (lock time-outs 0-1 s): increment, transfer and unique-value read/write sections in drawn (opposite) orders, failing at drawn positions, pre-empted at every yield and stalled while holding locks. The recorded history of committed sections is checked for strict serializability against a multi-register transaction model with porcupine (outside the simulation), which subsumes lost updates, dirty/non-repeatable reads, effects of aborted sections and conservation; all contexts must finish within a simulated-time bound (no deadlock, time-outs abort instead of blocking).",
+   note="Trusted: overlay instrumentation; porcupine; histories <= 25 sections; porcupine time-outs counted as inconclusive.",
+   technique="deterministic simulation: seeded goroutine schedules and stalls over the real lock manager; porcupine strict-serializability check of the recorded history; bounded-progress verdict; shrunk replay files",
+   ref="6 (C07)"),
 }
 PENDING = "check not built yet in this session (planned, see DESIGN.md section 6); not claimed until its harness passes the determinism self-test"
 
